@@ -55,8 +55,8 @@ PLAN = {
         'level': 'proof',
         'units': ['phon', 'pmeth'],
         'technique': 'Verus: memo invariants (transparent, keys split-stable, prefixes memoised) + spec-level lemma list == ph_list_text(text, ...) independent of the memo',
-        'claim': 'Proof of history independence for the candidate texts and their order: (1) every memo entry is the direct-candidate list of its key, every key is a split-stable word part, the memo only grows by the word part of the current text and is cleared when the user list is reloaded; (2) PhoneticMethod keeps the invariant that the word part of every non-empty prefix of the composition is memoised (preserved by key, backspace; trivially true when idle); (3) spec-level lemma: under (1)+(2) a split point of the word is memoised iff its base is itself a split-stable word part -- a property of the text -- hence list == ph_list_text(text, config, data, user list), a function that does not mention the memo; get_suggestion and backspace_event are proved to return exactly that list.',
-        'note': COMMON_TRUST + 'The preselected index is proved in range only (its functional form is C09 look-up side, bounded check learn_recall); include_from_dictionary, split, search_corrected are T2 (assumed contracts); sort assumed to be a function of the ranked values; "other contexts in the same process" rests on safe Rust aliasing + the scan for process-wide state.',
+        'claim': 'Proof of history independence for the candidate texts and their order: (1) every memo entry is the direct-candidate list of its key, every key is a split-stable word part, the memo only grows by the word part of the current text and is cleared when the user list is reloaded; (2) PhoneticMethod keeps the invariant that the word part of every non-empty prefix of the composition is memoised (preserved by key, backspace; trivially true when idle); (3) spec-level lemma: under (1)+(2) a split point of the word is memoised iff its base is itself a split-stable word part -- a property of the text -- hence list == ph_list_text(text, config, data, user list), a function that does not mention the memo; get_suggestion and backspace_event are proved to return exactly that list, and the preselected index is proved to be rv_first_index of the learned-or-derived text in it (a function of text and learned selections).',
+        'note': COMMON_TRUST + 'include_from_dictionary, split, search_corrected are T2 (assumed contracts); sort assumed to be a function of the ranked values; "other contexts in the same process" rests on safe Rust aliasing + the scan for process-wide state.',
     },
     'C06': {
         'bounded': ['fixed_rules', 'fixed_api'], 'static': ['context_glue'],
@@ -86,9 +86,9 @@ PLAN = {
         'bounded': ['learn_recall'],
         'level': 'proof',
         'units': ['pmeth', 'phon'],
-        'technique': 'Verus: candidate_committed postcondition over the String-keyed map view (learned value = word part of the candidate; no-op when preselected)',
-        'claim': 'Proof that committing the preselected candidate (or with suggestions off) leaves the store unchanged, and that otherwise exactly one entry is written: word part of the typed text -> word part (colon mode) of the committed candidate, all other entries untouched, independent of the save result; get_prev_selection returns an in-range index.',
-        'note': COMMON_TRUST + 'The look-up side (get_prev_selection == position of the rebuilt text) is only proved safe and in range so far; serde round trip and disk atomicity are not decided.',
+        'technique': 'Verus: functional postconditions of candidate_committed (store update + save attempt) and get_prev_selection (looked-up text, first index, derived entry) over String-keyed map views',
+        'claim': 'Commit side: committing the preselected candidate (or with suggestions off) leaves the store unchanged; otherwise exactly one entry is written (word part of the typed text -> word part, colon mode, of the committed candidate), all other entries untouched, and a save of the WHOLE new store to the selection file is attempted (marker predicate), independent of the save result.  Look-up side: get_prev_selection is proved to return the index of the first candidate whose text is wrapping punctuation + learned text of the word part, or -- when the word has no entry of its own -- + the learned text of a base joined (same three rules as C08) with the first known suffix, shortest first; a derived text is stored for the word part itself without the punctuation, nothing else changes, and that write is idempotent for later look-ups (lemma).  The preselected index returned by key and backspace events is proved to be this function of (text, configuration, data, user list, learned selections).',
+        'note': COMMON_TRUST + 'Not proved: the round-trip lemma (the word part, colon mode, of a candidate p+core+t re-wrapped equals the candidate) and uniqueness-based conclusion "points at that same candidate" -- covered by the bounded check learn_recall (same context, restart, suffixed forms, punctuated first typing); serde round trip and disk atomicity are not decided.',
     },
     'C10': {
         'bounded': ['user_files'],
